@@ -23,7 +23,7 @@ RULE = ('cases = (catalogue entry, subset of input positions made header-only, t
         'backed container}); exhaustive over the catalogue (%d entries). Non-trivial: every case (each has at least one header-only '
         'input); distinct = SHA-1 of the case.' % len(C.ENTRIES))
 ASSUMPTIONS = ['operators whose third-party dependency is not installed are outside the catalogue (DESIGN 2.3)',
-               'valuecount() (0/0 frequency) is outside the catalogue (DESIGN C20 scope note)']
+               'valuecount() on zero rows (0/0 frequency) is the recorded known finding F18']
 REQUIRED = ['entries-judged', 'binary:left-only-empty', 'binary:right-only-empty', 'binary:both-empty', 'reference-model-used',
             'generic-rule-used', 'explicit-expectation-used']
 EXHAUSTIVE = {'quick': True, 'thorough': True}
@@ -35,6 +35,9 @@ H3 = ('f0', 'f1', 'f2')
 EXPLICIT = {
     'annex1': [H3 + ('q',), (None, None, None, 1)],
     'addcolumn': [H3 + ('q',), (None, None, None, 1), (None, None, None, 2), (None, None, None, 3)],
+    'addcolumn-missing': [H3 + ('q',), ('NA', 'NA', 'NA', 1), ('NA', 'NA', 'NA', 2), ('NA', 'NA', 'NA', 3)],
+    'addcolumn-index-missing': [('f0', 'q', 'f1', 'f2'), ('-', 1, '-', '-'), ('-', 2, '-', '-'), ('-', 3, '-', '-')],
+    'annex1-missing': [H3 + ('q',), ('NA', 'NA', 'NA', 1)],
     'pushheader': [('a', 'b', 'c'), H3],
     'skip': [],
     'unpackdict': [('f0', 'f2')],
@@ -51,7 +54,7 @@ EXPLICIT = {
 SCALARS = {
     'issorted': True, 'isunique': True, 'header': H3, 'fieldnames': H3, 'nrows': 0,
     'columns': OrderedDict([('f0', []), ('f1', []), ('f2', [])]), 'facetcolumns': {}, 'rowgroupby': [], 'rowgroupby-value': [],
-    'listoflists': [list(H3)], 'tupleoftuples': (H3,), 'lookup': {}, 'lookupone': {}, 'dictlookup': {}, 'dictlookupone': {},
+    'listoflists': [list(H3)], 'tupleoftuples': (H3,), 'listoftuples': [H3], 'tupleoflists': (list(H3),), 'lookup': {}, 'lookupone': {}, 'dictlookup': {}, 'dictlookupone': {},
     'recordlookup': {}, 'recordlookupone': {}, 'valuecounter': Counter(), 'typecounter': Counter(), 'stringpatterncounter': Counter(),
     'typeset': set(), 'limits': (None, None), 'diffheaders': ({'zz'}, {'f1', 'f2'}), 'diffvalues': ({1, 99}, set()),
 }
@@ -62,7 +65,7 @@ def cases(ctx):
         subsets = [[0]] if e.arity == 1 else [[0], [1], [0, 1]]
         for sub in subsets:
             for shape in SHAPES:
-                if shape == 'none-keys' and not (e.arity == 2 and e.second == 'join'):
+                if shape == 'none-keys' and not (e.arity == 2 and e.second in ('join', 'joinrev')):
                     continue
                 yield {'op': e.name, 'empty': sub, 'shape': shape}
 
@@ -81,11 +84,11 @@ def _shape(table, shape, extra):
 def _inputs(e, case):
     a = C.table_a(4)
     b = C.second_for(e, 3) if e.arity == 2 else None
-    if case['shape'] == 'none-keys' and e.arity == 2 and e.second == 'join':
+    if case['shape'] == 'none-keys' and e.arity == 2 and e.second in ('join', 'joinrev'):
         # the non-empty side carries rows whose key is None (the value an exhausted side's key placeholder also has)
         a[1][0] = None
         a[3][0] = None
-        b[1][0] = None
+        b[1][b[0].index('f0')] = None
     if e.name.endswith('-presorted'):
         # the precondition of presorted=True: rows in (whole-row, hence also f0) order
         a = a[:1] + sorted(a[1:], key=lambda r: util.model_key(tuple(r)))
@@ -109,8 +112,12 @@ def _ref_binary(name, a, b):
          'join-lrkey': ('join', {'lprefix': 'l_', 'rprefix': 'r_'}), 'outerjoin-missing': ('outerjoin', {'missing': 'M'}),
          'hashjoin': ('join', {}), 'hashjoin-nocache': ('join', {}), 'hashleftjoin': ('leftjoin', {}), 'hashrightjoin': ('rightjoin', {}),
          'hashlookupjoin': ('lookupjoin', {}), 'hashjoin-natural': ('join', {})}
-    if name.endswith('-presorted'):
-        name = name[:-len('-presorted')]
+    for suffix in ('-presorted', '-keypos'):
+        if name.endswith(suffix):
+            name = name[:-len(suffix)]
+    if name == 'hashrightjoin-lrkey-missing':
+        h, r = oracles.ref_join('rightjoin', a, b, 'f0', 'f0', missing='M')
+        return h, r, False
     if name in J:
         op, kw = J[name]
         h, r = oracles.ref_join(op, a, b, 'f0', 'f0', **kw)
@@ -196,7 +203,7 @@ def judge(case, ctx):
     def srcs():
         s = [_shape(copy.deepcopy(a), shape, 'f3')]
         if b is not None:
-            s.append(_shape(copy.deepcopy(b), shape, 'g3' if e.second == 'join' else 'f3'))
+            s.append(_shape(copy.deepcopy(b), shape, 'g3' if e.second in ('join', 'joinrev') else 'f3'))
         return s
 
     def materialise(r):
@@ -242,7 +249,7 @@ def judge(case, ctx):
     def full_inputs():
         s = [_shape(C.table_a(4), shape, 'f3')]
         if e.arity == 2:
-            s.append(_shape(C.second_for(e, 3), shape, 'g3' if e.second == 'join' else 'f3'))
+            s.append(_shape(C.second_for(e, 3), shape, 'g3' if e.second in ('join', 'joinrev') else 'f3'))
         return s
     if e.kind == 'multi':
         full = [util.rows_of(v) for v in e.build(*full_inputs())]
@@ -263,7 +270,7 @@ def judge(case, ctx):
     # views
     if e.arity == 2:
         aa = [list(r) + ([('f3' if i == 0 else 'e%d' % i)] if four else []) for i, r in enumerate(a)]
-        bb = [list(r) + ([(('g3' if e.second == 'join' else 'f3') if i == 0 else 'e%d' % i)] if four else []) for i, r in enumerate(b)]
+        bb = [list(r) + ([(('g3' if e.second in ('join', 'joinrev') else 'f3') if i == 0 else 'e%d' % i)] if four else []) for i, r in enumerate(b)]
         ref = _ref_binary(e.name, aa, bb)
         if ref is not None:
             ctx.seen('reference-model-used')
